@@ -17,6 +17,8 @@ RULE = ("paired histories of 25..70 operations over 3..7 raw clients, each execu
         "same seeded plan: broadcast / unicast signals, calls to unique, well-known, vanished and never-existing names, "
         "requested and unrequested replies, send-denied calls, receive-denied signals, messages of unknown type codes (5..255, either "
         "byte order, optional header fields present or absent, addressed to peers, owned and ownerless names and the bus), "
+        "a small class of histories with max_outgoing_bytes lowered to 20000..65536 in which the attached monitors stop reading while "
+        "~0.5 MiB of 4 KiB signals and calls (more than socket buffers plus the limit) is delivered to ordinary readers, then drain, "
         "forged sender fields, messages "
         "from a connection that never said Hello, RequestName / ReleaseName churn with queues, AddMatch / RemoveMatch, "
         "driver queries, connects, disconnects, invalid BecomeMonitor calls (bad rule, nonzero flags, wrong signature, "
@@ -50,6 +52,8 @@ MARK_RULE = b"type='signal',interface='org.verif.Marker'"
 NOBODY = 65534
 ACCESS_DENIED = b"org.freedesktop.DBus.Error.AccessDenied"
 ODD_TYPES = [5, 5, 7, 7, 200, 255, 6, 9, 64, 128]
+SOCKBUF = 212992          # default SO_SNDBUF of the bus's end of a unix socket; twice that surely is beyond what the kernel holds
+FLOOD_SIZE = 4096
 
 POLICY = """
   <policy context="default">
@@ -87,6 +91,8 @@ class Planner(object):
         self.gone_names = []    # names (unique tokens) that no longer exist
         self.mon_names = set()  # names once held by a connection that became a monitor
         self.mon_rules = []     # selective filter rules (key -> value) of the monitors so far, without a type key
+        self.limits = None      # <limit> elements of the bus configuration
+        self.lag = False        # history of the 'monitor lags behind' class
 
     # -- helpers
     def owners(self):
@@ -401,7 +407,16 @@ class Planner(object):
         rules.append(MARK_RULE)
         return rules
 
-    def monitor_block(self):
+    def flood(self, flooder):
+        """enough matching traffic, while no monitor reads, to fill the kernel's buffers and push the bus-side queue of every
+        attached monitor beyond max_outgoing_bytes; ordinary connections keep reading (executor), so nothing is refused"""
+        limit = self.limits["max_outgoing_bytes"]
+        n = (2 * SOCKBUF + limit + 40000) // FLOOD_SIZE + 1
+        peers = [j for j in self.ords() if j != flooder] or [flooder]
+        return self.emit({"k": "flood", "c": flooder, "n": n, "size": FLOOD_SIZE, "peer": self.rng.choice(peers),
+                          "path": PATHS[0], "iface": IF_OK[0], "member": MEMBERS[0], "arg0": ARG0[0]})
+
+    def monitor_block(self, lag=False):
         rng = self.rng
         cands = self.ords(root_only=True, not_obs=True)
         if not cands:
@@ -427,6 +442,13 @@ class Planner(object):
         if rng.random() < 0.15:
             self.badmon(m)
         rules = self.gen_filter()
+        flooder = None
+        if lag:
+            flooder = rng.choice(others or [0])
+            rules = rng.choice([[], [], [], [b"interface='" + IF_OK[0] + b"'"], [b"sender='" + tok(flooder) + b"'"],
+                                [b"arg0='" + ARG0[0] + b"'"], [b"path='" + PATHS[0] + b"',member='" + MEMBERS[0] + b"'"]])
+            if rules:
+                rules = rules + [MARK_RULE]
         for t in rules[:-1]:
             d = dict(mr.tokenize(t))
             if b"type" not in d:
@@ -434,8 +456,14 @@ class Planner(object):
         old_rules = [t for _, t in self.cl[m]["rules"]]
         ev, noreply, owned, queued = self.leave(m, True)
         self.monitors.append(m)
-        return self.emit({"k": "monitor", "c": m, "rules": rules, "events": ev, "noreply": noreply, "owned": owned,
-                          "queued": queued, "old_rules": old_rules})
+        op = self.emit({"k": "monitor", "c": m, "rules": rules, "events": ev, "noreply": noreply, "owned": owned,
+                        "queued": queued, "old_rules": old_rules})
+        if lag:
+            self.state()
+            if self.cl[flooder]["state"] != "ord":
+                flooder = 0
+            self.flood(flooder)
+        return op
 
     def random_op(self):
         rng = self.rng
@@ -491,8 +519,11 @@ class Planner(object):
             self.signal(c, unicast=False)
 
 
-def make_plan(rng):
+def make_plan(rng, lag=False):
     p = Planner(rng)
+    if lag:
+        p.lag = True
+        p.limits = {"max_outgoing_bytes": rng.choice([20000, 32768, 65536])}
     p.connect(noc=True)                       # connection 0: the observer, never leaves
     for _ in range(rng.randint(2, 4)):
         p.connect(noc=rng.random() < 0.4)
@@ -501,10 +532,12 @@ def make_plan(rng):
             p.addmatch(i)
     n_ops = rng.randint(25, 70)
     nmon = rng.choice([0, 1, 1, 1, 1, 1, 2, 2, 2, 2])
+    if lag:
+        nmon = max(nmon, 1)
     pos = set(rng.sample(range(3, n_ops - 3), nmon))
     for step in range(n_ops):
         if step in pos:
-            p.monitor_block()
+            p.monitor_block(lag=lag and not p.monitors)
             p.state()
         else:
             p.random_op()
@@ -553,6 +586,7 @@ class Exec(object):
         self.steps_done = 0
         self.eof_ok = {}
         self.gone_t = {}          # idx -> clock value from which the connection no longer is an ordinary one
+        self.flooded = set()      # (idx, serial) of the messages sent while the monitors were not reading
 
     # -- plumbing
     def sub(self, v):
@@ -595,7 +629,7 @@ class Exec(object):
                 self.cl[i].pump()
 
     def start(self):
-        self.daemon = busproc.Daemon(self.b, self.rundir, busproc.make_config("@SOCK@", policy_xml=POLICY),
+        self.daemon = busproc.Daemon(self.b, self.rundir, busproc.make_config("@SOCK@", policy_xml=POLICY, limits=self.plan.limits),
                                      name="%s%d" % (self.mode.lower(), self.hid))
         if not self.daemon.started():
             raise RuntimeError("daemon did not start: " + self.daemon.stderr_text()[-400:])
@@ -755,6 +789,29 @@ class Exec(object):
             n = len([r for r in c.log if r.msg.type == 3 and r.msg.known().get(7) == BUS and r.msg.known().get(5) == s])
             self.part.count("unknown-type-answered-%d-times" % n)
         self.check_refusal(op, c, s)
+
+    def op_flood(self, op):
+        c = self.cl[op["c"]]
+        peer = self.uniq[op["peer"]]
+        for k in range(op["n"]):
+            body = [op["arg0"], b"%05d" % k + b"x" * (op["size"] - 5)]
+            if k % 3 == 2:
+                serial, data = c.build(1, path=op["path"], iface=op["iface"], member=op["member"], dest=peer, sig=b"ss", body=body, flags=1)
+            else:
+                serial, data = c.build(4, path=op["path"], iface=op["iface"], member=op["member"], sig=b"ss", body=body)
+            c.send_msg(data, serial)
+            self.flooded.add((op["c"], serial))
+            if k % 4 == 3:
+                # the sender's round-trip first: the bus has then processed the batch before anybody else sends;
+                # every ordinary connection keeps up (so none of them ever has a backlog near the limit); no monitor reads
+                c.barrier()
+                for i in self.ordinary():
+                    self.cl[i].barrier()
+                    self.cl[i].take_inbox()
+        c.barrier()
+        for i in self.ordinary():
+            self.cl[i].barrier()
+            self.cl[i].take_inbox()
 
     def op_nodest(self, op):
         c = self.cl[op["c"]]
@@ -1084,7 +1141,10 @@ def judge_monitors(ex, part):
                 refused = op.get("refused") if op else None
                 view = mon.view_of(msg, true)
                 view["recipient"] = recipient(i, t, msg)
-                add(("c", true, serial), view, ex.owners_at(t), mon.category(msg, true), mon.content_of(msg),
+                cat = mon.category(msg, true)
+                if (i, serial) in ex.flooded:
+                    cat += ":monitor-lagging"
+                add(("c", true, serial), view, ex.owners_at(t), cat, mon.content_of(msg),
                     required=req, optional=opt, refused=refused)
         # 2. bus-generated unicast messages, as received by their addressees
         for i, c in ex.cl.items():
@@ -1159,6 +1219,7 @@ def judge_monitors(ex, part):
         seen = collections.Counter(skey(x) for x in stream)
         missing, dup, unexplained = E.compare(seen)
         fk = filt.keyset()
+        lag_bytes = 0
         for key, n in E.universe.items():
             info = E.info[key]
             matched = E.required.get(key, 0) > 0
@@ -1176,6 +1237,9 @@ def judge_monitors(ex, part):
                     part.count("broadcast-seen", got)
                 if info["cat"].startswith("inactive-"):
                     part.count("inactive-sender-seen", got)
+                if info["cat"].endswith(":monitor-lagging"):
+                    part.count("lag-copies-checked", got)
+                    lag_bytes += got * FLOOD_SIZE
                 if info["cat"].endswith("unknown-type"):
                     part.count("unknown-type-shown", got)
                     part.count("unknown-type-shown:%s-filter" % ("empty" if filt.empty() else "selective"), got)
@@ -1189,6 +1253,11 @@ def judge_monitors(ex, part):
                 if seen[key] - E.required.get(key, 0) > 1:
                     part.count("transition-double-copies")
         part.count("monitor-streams-judged")
+        if lag_bytes:
+            part.count("lag-monitors-judged")
+            part.count("lag-monitor-filter:" + ("empty" if filt.empty() else "selective"))
+            if lag_bytes > 2 * SOCKBUF + plan.limits["max_outgoing_bytes"]:
+                part.count("lag-backlog-beyond-limit")      # what it drained cannot have fitted into kernel buffers + the limit
         part.count("monitor-filter:" + ("empty" if filt.empty() else "selective"))
         if has_dest:
             part.count("monitor-filter:destination")
@@ -1356,7 +1425,7 @@ def _run_exec(ex):
 def run_pair(b, rundir, seed, shard, i, part):
     hid = shard * 100000 + i
     for attempt in (0, 1):
-        plan = make_plan(gen.rng_for(seed, PROP, shard, i))
+        plan = make_plan(gen.rng_for(seed, PROP, shard, i), lag=(i % 20 == 1))
         sub = Part2()
         exs = []
         try:
@@ -1408,6 +1477,8 @@ def run_pair(b, rundir, seed, shard, i, part):
                 part.violation("%s:%s" % (PROP, k), what, _witness(plan, ex, hid, extra))
         part.evaluations += len(plan.ops)
         part.count("histories")
+        if plan.lag:
+            part.count("lag-histories")
         for op in plan.ops:
             part.count("op:" + op["k"])
             part.sig("op", op["k"], op.get("refused"), op.get("variant"), op.get("row"))
@@ -1479,6 +1550,12 @@ def run(tier, seed, replay=None, scale=1.0):
         r.require("destination-filter-judged", 3000)
         r.require("destination-no-owner-shown", 15)
         r.require("destination-bus-shown", 100)
+        r.require("lag-histories", 10)
+        r.require("lag-monitors-judged", 10)
+        r.require("lag-backlog-beyond-limit", 10)
+        r.require("lag-copies-checked", 1200)
+        r.require("lag-monitor-filter:empty", 3)
+        r.require("lag-monitor-filter:selective", 2)
         r.require("unknown-type-sent", 300)
         r.require("unknown-type-sent:to-bus", 40)
         r.require("unknown-type-sent:to-unique", 60)
@@ -1517,5 +1594,8 @@ def run(tier, seed, replay=None, scale=1.0):
         "messages of unknown type are only sent with a DESTINATION field (without one they take the same uncaptured path as the known "
         "finding without-destination-call); which error the bus answers them with is not judged, only that the answer the sender "
         "received is shown to the monitors; the byte order of a monitor's copy is not judged",
+        "in the 'monitor lags' histories only monitors stop reading; every ordinary connection reads after at most four 4 KiB messages, "
+        "so no ordinary delivery is ever near max_outgoing_bytes; that the lagging monitor's bus-side queue really exceeded the limit "
+        "is inferred from the bytes it drained (more than twice the default socket send buffer plus the limit)",
         "only the paired control 'disconnects instead' is run; the 'never connects' control of DESIGN.md is not"]
     return r.finish()
